@@ -1008,6 +1008,12 @@ def campaign(build, tier, seed, report, budget=1):
         t = f"order/{m}/{'agree' if len(ids) == 1 else 'differ'}/{'np_ok' if all(r['np_ok']) else 'np_differs'}"
         tags[t] = tags.get(t, 0) + 1
     obad = build.judge("c17_order", IMPORTS, "order_case", "judge_order", olits)
+    red_np = [(ometa[i][0], ometa[i][1], _show_call(*ocases[i]["calls"][0])) for i, r in enumerate(ores)
+              if ometa[i][2] == "reduce" and not all(r["np_ok"])]
+    if red_np:
+        notes.append("outside C17 (value of a reduction, C03): %d ufunc.reduce cases of non-associative ufuncs agree between "
+                     "np.u.reduce(x) and x.reduce(np.u) but differ from NumPy on the densified operand, e.g. %s"
+                     % (len(red_np), red_np[0][2][:200]))
     OC = {1: ("ufunc_{m}_disagrees_with_broadcasting_spelling", "value"), 2: ("ufunc_{m}_differs_from_numpy", "value"),
           7: (None, "representation")}
     for i, code in obad:
